@@ -10,6 +10,22 @@ from . import geom
 from .common import FIELD, MESH, REGION
 
 FLOOR = 30
+ANCHORS = [
+    'mesh.Mesh.__init__',
+    'mesh.Mesh.cell',
+    'mesh.Mesh.indices',
+    'mesh.Mesh.__iter__',
+    'mesh.Mesh.cells',
+    'mesh.Mesh.vertices',
+    'mesh.Mesh.__len__',
+    'mesh.Mesh.index2point',
+    'mesh.Mesh.point2index',
+    'mesh.Mesh.coordinate_field',
+    'region.Region.__contains__',
+    'region.Region.edges',
+    'region.Region.center',
+    'region.Region.ndim',
+]   # functions whose code the property is anchored in (mutation analysis, evidence)
 
 
 def _single_return(v):
